@@ -19,7 +19,7 @@ HEADER = "Require Import PF.Lib.ListX PF.Lib.Chunks PF.Model.Loader."
 MODEL_TARGETS = ["Model/Loader.vo"]
 SHARD = 250
 RULE = ("one or two epochs of a torch_frame DataLoader over a TensorFrame (dense, ragged, embedding, dict-valued "
-        "columns, with/without y, feature-less) or a materialized / unmaterialized Dataset of 0..12 rows with a "
+        "columns, with/without y, with/without an explicit num_rows, feature-less) or a materialized / unmaterialized Dataset of 0..12 rows with a "
         "row-id payload in every column; distinct = distinct (source kind, stype set, n, batch_size, sampling kind, "
         "drop_last, user collate, ok/err); non-trivial = at least one batch was delivered or an error was expected")
 TRUSTED = [
@@ -113,6 +113,9 @@ def build_tf(spec):
             feat[sty] = {key: mnt(n, k, lambda r, j, ki=ki: cell(st, r, j, ki), torch.long)
                          for ki, key in enumerate(TOK_KEYS)}
     y = torch.tensor([y_of(r) for r in range(n)], dtype=torch.float32) if spec["with_y"] else None
+    if spec.get("explicit_num_rows"):
+        # a frame constructed with features AND an explicit number of rows
+        return TensorFrame(feat, names, y, num_rows=n)
     return TensorFrame(feat, names, y)
 
 
@@ -131,10 +134,25 @@ def expected_rows_tf(spec):
     return rows
 
 
+def payload_rows(tfj):
+    """Number of rows actually present in the payload tensors (None for a feature-less frame)."""
+    for f in tfj["feats"].values():
+        if isinstance(f, dict):
+            for v in f.values():
+                return len(v)
+        else:
+            return len(f)
+    if tfj["y"] is not None:
+        return len(tfj["y"])
+    return None
+
+
 def rows_of(tfj):
-    """read_tf JSON -> list of per-row contents."""
+    """read_tf JSON -> list of per-row contents, read off the payload tensors themselves
+    (the frame's reported num_rows is only used for a feature-less frame)."""
     rows = []
-    for r in range(tfj["num_rows"]):
+    m = payload_rows(tfj)
+    for r in range(tfj["num_rows"] if m is None else m):
         row = {}
         for st, f in tfj["feats"].items():
             row[st] = {k: v[r] for k, v in f.items()} if isinstance(f, dict) else f[r]
@@ -189,7 +207,7 @@ def gen_tf_spec(rng, n):
     with_y = rng.chance(0.5)
     if not any(st in ("numerical", "categorical", "timestamp", "embedding") for st, _ in cols):
         with_y = True          # keep every row identifiable by content
-    return {"n": n, "cols": cols, "with_y": with_y}
+    return {"n": n, "cols": cols, "with_y": with_y, "explicit_num_rows": rng.chance(0.35)}
 
 
 def gen_ds_desc(rng, n):
@@ -220,7 +238,14 @@ def gen_case(rng, n=None, bs=None, src=None, shuffle=None, drop_last=None, plain
     if src == "tf":
         case["tf"] = gen_tf_spec(rng, n)
     else:
-        case["frame"] = gen_ds_desc(rng, n)
+        # whether a DataFrame materializes at all is C01/C03's business: keep only frames that do
+        for _ in range(20):
+            case["frame"] = gen_ds_desc(rng, n)
+            try:
+                D.build_dataset(case["frame"])[0].materialize()
+                break
+            except Exception:
+                continue
     return case
 
 
@@ -265,7 +290,13 @@ class ListSampler(torch.utils.data.Sampler):
 def read_batch(b):
     if not isinstance(b, TensorFrame):
         return {"type": type(b).__name__, "repr": repr(b)[:120]}
-    return {"type": "TensorFrame", "tf": D.read_tf(b)}
+    rec = {"type": "TensorFrame", "len": len(b), "num_rows": b.num_rows, "validate": None}
+    try:
+        b.validate()
+    except Exception as ex:
+        rec["validate"] = f"{C.exc_name(ex)}: {str(ex)[:150]}"
+    rec["tf"] = D.read_tf(b)
+    return rec
 
 
 def run(case):
@@ -400,6 +431,26 @@ def oracle(case, obs):
                 return dict(key="names", what=f"batch {k} has different column names than the source",
                             expected=names, observed=b["tf"]["names"])
         got_rows = [rows_of(b["tf"]) for b in got]
+        # the batch's own account of its size must be the number of rows its payload holds
+        for k, (b, br) in enumerate(zip(got, got_rows)):
+            held = payload_rows(b["tf"])
+            cols_len = set()
+            for f in b["tf"]["feats"].values():
+                cols_len |= {len(v) for v in f.values()} if isinstance(f, dict) else {len(f)}
+            if b["tf"]["y"] is not None:
+                cols_len.add(len(b["tf"]["y"]))
+            if len(cols_len) > 1:
+                return dict(key="columns-disagree", what=f"epoch {e} batch {k}: columns hold different numbers of rows",
+                            observed=sorted(cols_len))
+            if held is not None and (b["len"] != held or b["num_rows"] != held):
+                return dict(key=f"stale-num-rows:{kind}",
+                            what=f"epoch {e} batch {k} holds {held} rows but reports len(batch)={b['len']}, "
+                                 f"num_rows={b['num_rows']}", expected=held, observed=[b["len"], b["num_rows"]])
+            if b["len"] != b["num_rows"]:
+                return dict(key="len-vs-num-rows", what=f"epoch {e} batch {k}: len(batch)={b['len']} != num_rows="
+                                                        f"{b['num_rows']}")
+            if b["validate"] is not None:
+                return dict(key="batch-invalid", what=f"epoch {e} batch {k} fails validate(): {b['validate']}")
         # the order of row indices the epoch must follow
         if kind == "shuffle":
             if identifiable:
@@ -428,15 +479,20 @@ def oracle(case, obs):
             return dict(key=f"batch-count:{kind}", what=f"epoch {e} has {len(got)} batches, expected {len(exp)}",
                         expected=exp, observed=[len(br) for br in got_rows])
         for k, (idx, br, b) in enumerate(zip(exp, got_rows, got)):
-            if b["tf"]["num_rows"] != len(idx) or len(br) != len(idx):
+            if b["len"] != len(idx) or b["num_rows"] != len(idx) or len(br) != len(idx):
                 return dict(key=f"batch-size:{kind}",
-                            what=f"epoch {e} batch {k} has {b['tf']['num_rows']} rows, expected {len(idx)}",
-                            expected=exp, observed=[len(x) for x in got_rows])
+                            what=f"epoch {e} batch {k} has len {b['len']} / num_rows {b['num_rows']} / "
+                                 f"{len(br)} payload rows, expected {len(idx)}",
+                            expected=exp, observed=[[x["len"], len(y)] for x, y in zip(got, got_rows)])
             want_rows = [rows[i] for i in idx]
             if br != want_rows:
                 return dict(key=f"batch-content:{kind}:{case['src']}",
                             what=f"epoch {e} batch {k} is not the selection of rows {idx} of the source",
                             expected=want_rows, observed=br)
+        served = sum(len(idx) for idx in exp)
+        if sum(b["len"] for b in got) != served:
+            return dict(key=f"rows-served:{kind}", what=f"epoch {e}: batch lengths sum to {sum(b['len'] for b in got)}, "
+                                                         f"{served} rows were to be served")
         if obs["len"] != len(exp):
             return dict(key=f"len:{kind}", what=f"len(loader) = {obs['len']} but an epoch has {len(exp)} batches")
     return None
@@ -489,12 +545,13 @@ def nontrivial_sig(case, obs):
     if not (delivered or err):
         return None
     sts = [c[0] for c in case["tf"]["cols"]] if case["src"] == "tf" else sorted({c["stype"] for c in case["frame"]["cols"]})
-    return json.dumps([case["src"], sts, case["n"], case["bs"], sampling_kind(case), case["drop_last"],
+    enr = bool(case["src"] == "tf" and case["tf"].get("explicit_num_rows"))
+    return json.dumps([case["src"], sts, enr, case["n"], case["bs"], sampling_kind(case), case["drop_last"],
                        case["user_collate"], err])
 
 
 def stats(cases, obss):
-    d = {"total": 0, "src": {}, "sampling": {}, "n": {}, "bs_vs_n": {}, "drop_last": 0, "user_collate": 0,
+    d = {"total": 0, "explicit_num_rows": 0, "featureless": 0, "src": {}, "sampling": {}, "n": {}, "bs_vs_n": {}, "drop_last": 0, "user_collate": 0,
          "error_cases": 0, "zero_batches": 0, "two_epochs": 0, "stypes": {}}
     for c, o in zip(cases, obss):
         if c is None:
@@ -508,6 +565,9 @@ def stats(cases, obss):
         rel = "n=0" if n == 0 else "bs>n" if bs > n else "bs|n" if n % bs == 0 else "rem1" if n % bs == 1 else "rem>1"
         d["bs_vs_n"][rel] = d["bs_vs_n"].get(rel, 0) + 1
         d["drop_last"] += bool(c["drop_last"])
+        if c["src"] == "tf":
+            d["explicit_num_rows"] += bool(c["tf"]["cols"] and c["tf"].get("explicit_num_rows"))
+            d["featureless"] += not c["tf"]["cols"]
         d["user_collate"] += bool(c["user_collate"])
         d["two_epochs"] += c["epochs"] == 2
         if o and ("init_exc" in o or any("exc" in ep for ep in o.get("epochs", []))):
@@ -548,6 +608,10 @@ def coq_term(case, obs):
                 bt = [[4999] for _ in ep["batches"]]
             else:
                 bt = [[index_of.get(canon(r), 4998) for r in rows_of(b["tf"])] for b in ep["batches"]]
+                # a batch whose reported size (len / num_rows / validate) disagrees with the rows it holds
+                # is not the model's batch: mark it
+                bt = [t if (b["len"] == len(t) and b["num_rows"] == len(t) and b["validate"] is None) else t + [4997]
+                      for t, b in zip(bt, ep["batches"])]
             o = f"(Some ({C.clist(bt, nl)}, {C.cnat(obs['len'])}))"
             flat = [t for b in bt for t in b]
             ok = len(index_of) == n and len(set(flat)) == len(flat) and all(t < n for t in flat)
